@@ -78,13 +78,25 @@ func loadCheck(id string) (*checkDef, error) {
 	for _, p := range basePkgs {
 		pats[p] = true
 	}
-	for _, f := range files {
+	nOwn := len(files)
+	for fi := 0; fi < len(files); fi++ {
+		f := files[fi]
 		b, err := os.ReadFile(f)
 		if err != nil {
 			return nil, err
 		}
 		src := string(b)
 		cd.Files = append(cd.Files, f)
+		// //verif:include <path relative to this file>: shared model files
+		for _, ln := range strings.Split(src, "\n") {
+			if rest, ok := strings.CutPrefix(strings.TrimSpace(ln), "//verif:include "); ok {
+				inc := filepath.Join(filepath.Dir(f), strings.TrimSpace(rest))
+				if !contains(files, inc) {
+					files = append(files, inc)
+				}
+			}
+		}
+		included := fi >= nOwn
 		virt := ""
 		lines := strings.Split(src, "\n")
 		for _, ln := range lines {
@@ -133,7 +145,7 @@ func loadCheck(id string) (*checkDef, error) {
 		// harness functions and their opts (doc comment lines immediately above)
 		for i, ln := range lines {
 			mm := reFunc.FindStringSubmatch(ln)
-			if mm == nil {
+			if mm == nil || included {
 				continue
 			}
 			h := harnessDef{Name: mm[1], Pkg: pkgPath, Opts: map[string]string{}, File: f, Tier: "quick", Virtual: virt}
